@@ -5,31 +5,31 @@ V = os.path.dirname(os.path.dirname(os.path.abspath(__file__)))
 
 CLAIMED = {
  'C04': dict(engine='alloc', design='§4 C04', technique='deterministic simulation: seeded allocator-fault injection (poison/churn) across forked simulated processes, differential oracle',
-   text='Seeded exploration of (Y, X, r, correction) cases, each executed in 4 simulated processes that differ in allocator behaviour (natural heap with seeded churn, two fixed poison words, a poison stream) and hash seed, 3 repetitions each; oracle = normal termination, finite, bit-identical score everywhere, unchanged under alterations of Y outside the reference sampler\'s rows, quota-0 = full data. Sampling, not proof.',
+   text='Seeded exploration of (Y, X, r, correction) cases, each executed in 4 simulated processes that differ in allocator behaviour (natural heap with seeded churn, two fixed poison words, a poison stream) and hash seed, 3 repetitions each; oracle = normal termination, finite, bit-identical score everywhere, unchanged under alterations of Y outside the reference sampler\'s rows, quota-0 = full data, and identical when asked through the pipeline\'s plumbing (numba_mi) while one process serves changing ratios; pipeline mode: the whole ranking task with --mi_stratified_sampling_ratio < 1 writes the same ranks under every poison pattern. Sampling, not proof.',
    note='Trusted: numba NRT routes through PyMem RAW after memsys_use_cpython_allocator(); the C shim fills fresh and freed blocks; crash = death-by-signal of the forked child. The reference sampler (sim/refmodel/subsample.py) is the statement\'s quota rule.'),
  'C05': dict(engine='pipe', design='§4 C05', technique='deterministic simulation: real task under a seeded worker-pool scheduler and virtual clock, refinement of every emitted score against a reference scorer',
-   text='Seeded exploration of batches of string columns x every documented non-surrogate heuristic x target-only/pairwise x pool sizes 1-16 x seeded schedules (assignment, service times, stalls, reordering); every triplet that reaches the caller through the (simulated) pool is compared with a pure-Python reference scorer on the category codes of the frame that entered the rank graph, label as conditioning side. Sampling of inputs and schedules, not proof.',
+   text='Seeded exploration of batches of string columns x every documented non-surrogate heuristic x target-only/pairwise x pool sizes 1-16 x seeded schedules (assignment, service times, stalls, reordering, oversleeps and clock jumps) x optional second task in the same (long-lived) simulated process; every triplet that reaches the caller through the (simulated) pool is compared with a pure-Python reference scorer on the category codes of the frame that entered the rank graph, label as conditioning side. Sampling of inputs and schedules, not proof.',
    note='Trusted: SimPool mirrors multiprocess map_async (chunking, FIFO queue, ordered results, per-chunk dill copy, per-worker RNG/module state); reference scorers in sim/refmodel/heuristics.py (AMI delegated to scikit-learn); tolerance 1e-4(1+|ref|); max-value-coverage cases with a detected bucket collision are skipped and counted.'),
  'C06': dict(engine='pipe', design='§4 C06', technique='deterministic simulation: real rank graph under seeded pool schedules, pair-set oracle on what comes back from the pool',
-   text='Seeded exploration of column sets (1-40 columns, label anywhere, names containing the relation marker) x target-only/pairwise x 3mr/non-3mr x caps from 1 to beyond the candidate count x pool sizes/schedules; oracle: emitted unordered pairs are a subset of the requested set (equal when the cap cannot bind), both orientations with identical score and multiplicity, Constant lists each selected pair once with 0, no foreign column, evaluated count = min(cap, candidates).',
+   text='Seeded exploration of column sets (1-40 columns, label anywhere, names containing the relation marker) x target-only/pairwise x 3mr/non-3mr (also near misses of the marker) x caps from 1 to beyond the candidate count x pool sizes/schedules x optional second task in the same process with another label; oracle (against the cap given on the command line): emitted unordered pairs are a subset of the requested set (equal when the cap cannot bind), both orientations with identical score and multiplicity, Constant lists each selected pair once with 0, no foreign column, evaluated count = min(cap, candidates).',
    note='Trusted: SimPool as for C05; requested-pair model in sim/refmodel/pairs.py. The candidate count accepts both conventions (diagonal listed once or twice) so the oracle is no stricter than the statement.'),
  'C07': dict(engine='hist+pipe', design='§4 C07', technique='deterministic simulation: seeded batch histories on the real process-global counter in forked processes, per-step invariants against a counter model; same predicates on full multi-batch task runs',
-   text='hist: seeded operation lists Batch(cap_i) over stable duplicate-free candidate lists (changing caps, interleaved key-disjoint second list) on the real prior_combinations_sample in a forked process; after every step: subset, distinct, len=min(cap,size), least-evaluated-first, counter==model, spread<=1. pipe: the same predicates on every sampler call of multi-batch task runs with a binding cap, and combination_estimation_counts.json == recorded selections. No fault dimension (stated in DESIGN).',
+   text='hist: seeded operation lists Batch(cap_i) over stable duplicate-free candidate lists (changing caps, interleaved key-disjoint second list) on the real prior_combinations_sample in a forked process; after every step: subset, distinct, len=min(cap,size), least-evaluated-first, counter==model, spread<=1. lists beyond 10^4 candidates included. pipe: the same predicates on every sampler call of multi-batch task runs with a binding cap (tail batches, kill + restart on the dirty directory, a second task in the same process), and combination_estimation_counts.json == recorded selections. The property itself has no fault dimension (stated in DESIGN); the pipeline part nevertheless runs under the pool/clock/crash simulator because the counter lives in process-global state that forked workers and restarts do not share.',
    note='Trusted: the counter model (sim/refmodel/sampler.py). In pipeline runs the spread<=1 predicate is not asserted for lists with duplicates (pairwise mode lists diagonals twice), as the statement restricts it to duplicate-free lists.'),
  'C08': dict(engine='pipe', design='§4 C08', technique='deterministic simulation with crash injection: real task end to end under simulated pool/clock/filesystem, kill at seeded yield points, restart on the dirty disk, refinement against a streaming/median reference model',
-   text='Seeded exploration of CSV files (row counts around every batch and tail boundary, malformed rows anywhere, CRLF, missing final newline) x (minibatch_size, subsampling) x heuristics x pool sizes/schedules x fs modes; monitors compare the rows of every mini-batch with the reference batching, the on-disk checkpoint with the median aggregation at every batch boundary, at end of stream and after every injected kill (outside a checkpoint write), and pairwise_ranks.tsv with median-of-batches in ascending order; killed runs are restarted on the dirty directory and must reproduce the undisturbed output.',
+   text='Seeded exploration of CSV files (row counts around every batch and tail boundary, malformed rows anywhere, CRLF, missing final newline) x (minibatch_size, subsampling) x heuristics x pool sizes/schedules x fs modes; monitors compare the rows of every mini-batch with the reference batching, the on-disk checkpoint with the median aggregation at every batch boundary, at end of stream and after every injected kill (outside a checkpoint write), and pairwise_ranks.tsv with median-of-batches in ascending order; killed runs are restarted on the dirty directory and must reproduce the undisturbed output; a sprinkle of construction flags, ob-csv sources, oversleeps / clock jumps and second tasks in the same process.',
    note='Trusted: SimPool/SimClock/SimFS stubs; kill = immediate process end (user-space buffers lost, completed writes kept); power loss/EIO/ENOSPC not injected (no property constrains them); a kill inside a checkpoint write is counted (torn_checkpoint_observed), not reported.'),
  'C09': dict(engine='pipe', design='§4 C09', technique='deterministic simulation: families of runs of one workload across pool sizes x seeded completion orders x stalls x hash seeds x fresh processes x restart-after-kill, output-multiset equality',
-   text='For each generated workload (file + arguments incl. focus set, transformers, multi-value expansion, sub-features, interaction order, 3MR, noise controls, binding caps, stratified sub-sampling) a family of simulated runs: pool sizes {1,2,3,4,8,16} x service-time regimes (instant, ms, seconds, mixed, one stalled worker, reversed completion) x 3-4 interpreter hash seeds x identical repeats; all members must write the same multiset of (FeatureA, FeatureB, Score) rows, identical repeats must also be byte-identical with equal trace digests. Thorough tier cross-checks the SimPool against the real pathos pool.',
+   text='For each generated workload (file + arguments incl. focus set, transformers, multi-value expansion, sub-features, interaction order, 3MR, noise controls, binding caps, stratified sub-sampling) a family of simulated runs: pool sizes {1,2,3,4,8,16} x service-time regimes (instant, ms, seconds, mixed, one stalled worker, reversed completion) x 3-4 interpreter hash seeds x a member that is killed and restarted in the same directory x identical repeats x optional second task in the same process; all members must write the same multiset of (FeatureA, FeatureB, Score) rows, identical repeats must also be byte-identical with equal trace digests. Thorough tier cross-checks the SimPool against the real pathos pool.',
    note='Trusted: SimPool worker-state partition (RNG streams, outrank.* module containers) emulates forked workers; C-level state inside numba is shared between simulated workers (documented limit).'),
  'C13': dict(engine='pipe+hist', design='§4 C13', technique='deterministic simulation: batch-split histories of the real process-global statistics in forked processes against exact recomputation; split families through the full task',
-   text='hist: the real compute_coverage / compute_cardinalities / compute_value_counts in a forked process fed arbitrary compositions of a row sequence (thresholds 1-5, missing-symbol sets, counter bounds from 2), checked after every batch against exact recomputation, and all compositions of one sequence compared. pipe: full ranking / identify_rare_values tasks; annotations (cardinality; coverage), value_repetitions.json and rare_values.tsv vs exact recomputation, and equality across minibatch sizes that consume the same rows. No fault dimension (stated in DESIGN).',
+   text='hist: the real compute_coverage / compute_cardinalities / compute_value_counts in a forked process fed arbitrary compositions of a row sequence (thresholds 1-5, missing-symbol sets, counter bounds from 2), checked after every batch against exact recomputation, and all compositions of one sequence compared. pipe: full ranking / identify_rare_values tasks; annotations (cardinality; coverage), value_repetitions.json and rare_values.tsv vs exact recomputation, under pool schedules, kill + restart and a second task in the same process (both scope readings - per task / per process - accepted). The property itself has no fault dimension (stated in DESIGN).',
    note='Trusted: exact models in sim/refmodel/stats.py; a cardinality deficit is tolerated only when the repo\'s own 32-bit value hash shows a collision of plausible size (the statement allows 32-bit hash collisions).'),
  'C14': dict(engine='hist', design='§4 C14', technique='deterministic simulation: seeded insertion histories (order, duplication, warm-up boundary crossing) on the real sketch in forked processes against an exact set',
-   text='Seeded bulk-operation histories on the real HyperLogLogWCache with its real parameters (add new, re-add old/recent/boundary values, permuted orders, probes), biased to end at 2^18-1 / 2^18 / 2^18+1 distinct values and reaching 2^19..2^21 in the thorough tier; at every probe: exact when distinct <= 2^18, within 2% up to 2^21, re-adding seen values never changes the size, permutations agree in the exact range. A scaled-knob mode (m = 2^8..2^12) crosses the switch thousands of times and asserts exactness and duplicate-blindness only. No fault dimension (stated in DESIGN).',
+   text='Seeded bulk-operation histories on the real HyperLogLogWCache with its real parameters (add new, re-add old/recent/boundary values, permuted orders, probes), biased to end at 2^18-1 / 2^18 / 2^18+1 distinct values and reaching 2^19..2^21 in the thorough tier; at every probe: exact when distinct <= 2^18, within 2% up to 2^21, re-adding seen values never changes the size, permutations agree in the exact range. A scaled-knob mode (m = 2^8..2^12) crosses the switch thousands of times and asserts exactness and duplicate-blindness only. A second sketch alive in the same process (crossing its own switch), a simulated wall clock that only moves on tick operations, and a swarm-selected poison allocator expose shared state, time-based caching and uninitialised registers. The property itself has no fault dimension (stated in DESIGN).',
    note='Trusted: exact-set model; values are hex digests as in the pipeline plus arbitrary strings; hash seeds varied per zygote.'),
  'C15': dict(engine='hist', design='§4 C15', technique='deterministic simulation: seeded update histories x sketch RNG seeds x interpreter hash seeds on the real sketches in forked processes against an exact counter',
-   text='Seeded streams of (item, weight) over ints and strings on the real CountMinSketch (depth 1-8, width 1-2^15, emphasis on narrow sketches; np.random state and PYTHONHASHSEED are job parameters because the row seeds and numba\'s str hash depend on them) and PrimitiveConstrainedCounter; after every step: true <= query <= total for seen and unseen items, every row sums to total; counter never over-counts, exact below the bound, never tracks more than bound values. No fault dimension (stated in DESIGN).',
+   text='Seeded streams of (item, weight) over ints and strings on the real CountMinSketch (depth 1-8, width 1-2^15, emphasis on narrow sketches; np.random state and PYTHONHASHSEED are job parameters because the row seeds and numba\'s str hash depend on them) and PrimitiveConstrainedCounter; after every step: true <= query <= total for seen and unseen items, every row sums to total; counter never over-counts, exact below the bound, never tracks more than bound values; several sketches / counters alive in one process, simulated clock ticks and poison allocator swarm-selected. The property itself has no fault dimension (stated in DESIGN).',
    note='Trusted: exact weighted counter model; totals kept below 2^31 (int32 matrix); ints restricted to int64 (numba typing).'),
 }
 
